@@ -59,6 +59,11 @@ mod native {
         QUEUE.with(|q| q.borrow_mut().take().map(|v| v.len()).unwrap_or(0))
     }
 
+    /// Number of recorded values not yet consumed (0 when no playback is active).
+    pub fn playback_remaining() -> usize {
+        QUEUE.with(|q| q.borrow().as_ref().map(|v| v.len()).unwrap_or(0))
+    }
+
     pub trait Nondet: Copy {
         fn from_le(bytes: &[u8]) -> Self;
         fn random() -> Self;
